@@ -7,17 +7,18 @@ import Proofs.RoundTripDoc
 namespace PM.RoundTrip
 open PM PM.Dom PM.FromDom PM.DomWalk
 
-/-- `m` can follow the marks of `set` in a mark set: higher rank than all of them, no exclusion either way -/
+/-- `m` can follow the marks of `set` in a mark set: rank not lower than theirs, different from all of them, no exclusion
+    either way -/
 def follows (S : Schema) (set : Marks) (m : Mark) : Prop :=
-  ∀ o ∈ set, o.ty < m.ty ∧ S.excludes m.ty o.ty = false ∧ S.excludes o.ty m.ty = false
+  ∀ o ∈ set, (o.ty ≤ m.ty ∧ o ≠ m) ∧ S.excludes m.ty o.ty = false ∧ S.excludes o.ty m.ty = false
 
 theorem addToSetAux_follows (S : Schema) (m : Mark) (set : Marks) : ∀ (rest : Marks) (i : Nat),
     follows S rest m → addToSetAux S m set rest i none false = set ++ [m]
   | [], _, _ => by simp [addToSetAux]
   | o :: rest, i, h => by
     obtain ⟨h1, h2, h3⟩ := h o List.mem_cons_self
-    have hne : m ≠ o := by intro he; subst he; exact Nat.lt_irrefl _ h1
-    have hgt : ¬ (o.ty > m.ty) := fun hg => Nat.lt_asymm h1 hg
+    have hne : m ≠ o := fun he => h1.2 he.symm
+    have hgt : ¬ (o.ty > m.ty) := Nat.not_lt.2 h1.1
     unfold addToSetAux
     simp only [hne, if_false, h2, Bool.false_eq_true, h3, hgt, decide_false, Bool.and_false, Option.map_none]
     exact addToSetAux_follows S m set rest (i + 1) (fun x hx => h x (List.mem_cons_of_mem _ hx))
@@ -30,8 +31,8 @@ theorem tAddToSetAux_follows (S : Schema) (m : TMark) (set : List TMark) : ∀ (
   | [], _, _ => by simp [tAddToSetAux]
   | o :: rest, i, h => by
     obtain ⟨h1, h2, h3⟩ := h o.2 (by simp)
-    have hne : m.2 ≠ o.2 := by intro he; rw [he] at h1; exact Nat.lt_irrefl _ h1
-    have hgt : ¬ (o.2.ty > m.2.ty) := fun hg => Nat.lt_asymm h1 hg
+    have hne : m.2 ≠ o.2 := fun he => h1.2 he.symm
+    have hgt : ¬ (o.2.ty > m.2.ty) := Nat.not_lt.2 h1.1
     unfold tAddToSetAux
     simp only [hne, if_false, h2, Bool.false_eq_true, h3, hgt, decide_false, Bool.and_false, Option.map_none]
     exact tAddToSetAux_follows S m set rest (i + 1) (fun x hx => h x (by simp at hx ⊢; exact .inr hx))
@@ -48,10 +49,8 @@ theorem follows_notIn (S : Schema) (set : Marks) (m : Mark) (h : follows S set m
   unfold Mark.isInSet
   rw [List.any_eq_false]
   intro o ho he
-  have := (h o ho).1
   have : o = m := by simpa using he
-  subst this
-  exact Nat.lt_irrefl _ (h o ho).1
+  exact (h o ho).1.2 this
 
 /-- one round of the loop of `apply_pending` -/
 def apStep (S : Schema) (nextTy : TypeId) (cx : NodeCtx) (m : TMark) : NodeCtx :=
@@ -160,8 +159,7 @@ theorem addPendingMark_marks (S : Schema) (st : PState) (base : List NodeCtx) (c
     intro o ho' he
     have h1 := (hfp o.2 (by simp; exact ⟨o.1, by simpa using ho'⟩)).1
     have : o.2 = mk.2 := by simpa using he
-    rw [this] at h1
-    exact Nat.lt_irrefl _ h1
+    exact h1.2 this
   constructor
   · unfold PState.addPendingMark
     simp only [hx, hnone]
@@ -186,9 +184,7 @@ theorem removePendingMark_active (S : Schema) (st : PState) (base : List NodeCtx
   have hx : st.nodes[base.length]? = some cx := by rw [hn]; exact getElem?_base base cx []
   have hne : ∀ o ∈ pa.map (·.2), o ≠ mk.2 := by
     intro o ho' he
-    have := (hf o ho').1
-    rw [he] at this
-    exact Nat.lt_irrefl _ this
+    exact (hf o ho').1.2 he
   refine ⟨tRemoveFromSet mk.2 cx.activeT, ?_, ⟨hs.ty, hs.mtch, hs.solid, rfl, hs.pending, hs.stash⟩⟩
   unfold PState.removePendingMark
   simp only [ho, removePendingLoop, hx, NodeCtx.removePending, hs.pending, List.any_nil, Bool.false_eq_true, if_false,
